@@ -258,7 +258,7 @@ def run(ck):
                "uniform draws; (c) TAP001 / TAP003 in the UC7 scenarios under random blue actions: stage transitions, action gaps, and the logged "
                "bookkeeping calls replayed through the model; non-trivial = at least two actions / shuffled keys")
     coq_props(ck)
-    gen_tie.check(ck, ["scripted", "killchain"])
+    gen_tie.check(ck, ["scripted", "killchain", "periodic"])
     rng = ck.rng
     coq_in = []
     for k in range(ck.n(40, 300)):
